@@ -756,13 +756,19 @@ impl<S: Sample> RenderedImage<S> {
 
         #[cfg(jxl_oxide_verif)]
         verif_scope.composite_enter();
-        composite(
+        let composite_result = composite(
             &self.image.frame,
             &mut grid,
             self.image.refs.clone(),
             oriented_image_region,
             pool,
-        )?;
+        );
+        if let Err(e) = composite_result {
+            // The handle is marked `Rendering`; store a final state and wake up waiters before
+            // returning, as `run_with_image` does for a failed render.
+            drop(self.image.done_render(FrameRender::ErrTaken));
+            return Err(e);
+        }
         #[cfg(jxl_oxide_verif)]
         verif_scope.composite_exit_ok();
 
